@@ -178,3 +178,53 @@ def b_int_q0(tier, seed):
                 except Exception as e:  # noqa: BLE001
                     failures.append({"what": f"{cls.__name__} on {kind} ({variant} q0): assembling raised {type(e).__name__}", "input": {"variant": variant}, "detail": str(e)[:200]})
     return {"cases": cases, "distinct": cases, "failures": failures, "bound": "3 force laws x 3 subsystem kinds x 3 dtype variants of q0, through System.assemble"}
+
+
+@bounded("C09", "native/force law attached to a joint that was assembled before with another initial state")
+def b_reused_joint(tier, seed):
+    """history: a mechanism (body on a Revolute joint / two bodies for a TwoPointInteraction) is assembled, gets a new
+    ADMISSIBLE initial state (System.set_new_initial_state: the body turned about the joint axis), and only then a force
+    law with default l_ref is attached and the system assembled again: the default reference belongs to the current state.
+    (A symbolic version over arbitrary new states was dropped: off the joint manifold Revolute.l is not defined.)"""
+    import contextlib, io, warnings
+
+    from cardillo import System
+    from cardillo.discrete import RigidBody
+    from cardillo.math.rotations import Exp_SO3
+
+    rng = np.random.default_rng(seed + 91)
+    cases, failures = 0, []
+    for cls in (Spring, KelvinVoigtElement, MaxwellElement):
+        for axis in (0, 1, 2):
+            for rep in range(2 if tier == "quick" else 6):
+                cases += 1
+                phi = float(rng.uniform(-1.4, 1.4))  # within the tracking precondition |increment| < pi/2 (C25)
+                angle0 = float(rng.uniform(-1.5, 1.5))
+                A0 = Exp_SO3(rng.uniform(-1, 1, 3))
+                e = np.eye(3)[axis]
+                rJ = rng.uniform(-1, 1, 3)
+                r_body = rJ + A0 @ rng.uniform(-0.5, 0.5, 3)
+                with warnings.catch_warnings(), contextlib.redirect_stdout(io.StringIO()), contextlib.redirect_stderr(io.StringIO()):
+                    warnings.simplefilter("ignore")
+                    try:
+                        sysm = System(t0=0.5)
+                        rb = RigidBody(1.0, np.diag([1.0, 2.0, 3.0]), q0=RigidBody.pose2q(r_body, A0), u0=np.zeros(6))
+                        j = Revolute(sysm.origin, rb, axis=axis, angle0=angle0, r_OJ0=rJ, A_IJ0=A0)
+                        sysm.add(rb, j)
+                        sysm.assemble()
+                        R = A0 @ Exp_SO3(phi * e) @ A0.T  # rotation about the joint axis through the joint point
+                        q_new = RigidBody.pose2q(rJ + R @ (r_body - rJ), R @ A0)
+                        sysm.set_new_initial_state(q_new, np.zeros(6), t0=0.5)
+                        kw = {} if cls is MaxwellElement else {"compliance_form": bool(rep % 2)}
+                        el = cls(j, 7.0, 0.5) if cls is MaxwellElement else (cls(j, k=7.0, d=0.3, **kw) if cls is KelvinVoigtElement else cls(j, k=7.0, **kw))
+                        sysm.add(el)
+                        sysm.assemble()
+                        t0, q0, u0 = sysm.t0, sysm.q0, sysm.u0
+                        vals = dict(E_pot=abs(float(sysm.E_pot(t0, q0))), h=float(np.max(np.abs(sysm.h(t0, q0, u0)), initial=0.0)), la_c0=float(np.max(np.abs(sysm.la_c0), initial=0.0)), angle=abs(float(j.l(t0, q0[j.qDOF])) - (angle0 + phi)))
+                    except Exception as ex:  # noqa: BLE001
+                        failures.append({"what": f"{cls.__name__} on a re-assembled Revolute[axis={axis}]: raised {type(ex).__name__}", "input": {"seed": seed, "phi": phi}, "detail": str(ex)[:200]})
+                        continue
+                bad = {a: b for a, b in vals.items() if not b <= 1e-9}
+                if bad:
+                    failures.append({"what": f"{cls.__name__} with default l_ref on a Revolute[axis={axis}] that was assembled before with another initial state is not stress free at the current initial state", "input": {"seed": seed, "phi": phi, "angle0": angle0}, "detail": str(bad)})
+    return {"cases": cases, "distinct": cases, "failures": failures[:12], "bound": "3 force laws x 3 joint axes x random admissible re-initialisations (rotation about the joint axis), force/compliance form alternating"}
